@@ -57,10 +57,32 @@ def rand_name(rng, pool=None):
     return b".".join(rng.choice(pool[:6] if rng.random() < 0.8 else pool) for _ in range(k)) + b"."
 
 
+def boundary_name(rng, wire=None, suffix=None):
+    """a name of exactly `wire` octets on the wire (253, 254 or the RFC 1035 maximum 255), optionally ending in the
+       labels `suffix` (so that it is reached through a compression pointer): dotted length = wire - 1"""
+    wire = wire or rng.choice([253, 254, 255, 255])
+    labs = list(suffix or [])
+    left = wire - 1 - sum(len(l) + 1 for l in labs)          # octets still to fill with (length, label) pairs
+    fill = []
+    while left > 0:
+        n = min(left - 1, rng.choice([63, 63, 40, 17]))
+        if left - 1 - n == 1:                                 # never leave room for a label of zero bytes
+            n -= 1
+        fill.append(bytes([rng.choice(b"xyzXQ9")]) * n)
+        left -= n + 1
+    return b".".join(fill + labs) + b"."
+
+
 def name_pool(rng, n=5):
     """names sharing suffixes"""
     base = [rand_name(rng) for _ in range(2)]
     out = list(base)
+    if rng.random() < 0.12:
+        # names at the 255-octet limit, alone and sharing a suffix with a short name of the pool
+        short = [b for b in base if len(b) < 60]
+        out.append(boundary_name(rng))
+        if short:
+            out.append(boundary_name(rng, suffix=rng.choice(short)[:-1].split(b".")))
     for _ in range(n):
         b = rng.choice(out)
         labs = b[:-1].split(b".")
